@@ -19,6 +19,7 @@ CONSTANTS Uploads,      \* upload identities
           NumRegions,
           MaxBlocks,    \* bound on PushBack()s
           MaxSyncs,
+          MaxCrashes,   \* number of crashes after which the run stops (the store restarts after the others)
           Mut
 
 VARIABLES
@@ -42,11 +43,12 @@ VARIABLES
     storeLock,  \* "" | "pl" | "rl"
     plpc, rlpc, nsyncs,
     ackedAtSync, committedAcks, dirty, pdirty,  \* ghost for C03(b)
+    ncrash,
     phase,      \* "run" | "post"
     visible     \* after recovery: upload -> TRUE if a valid record for it survived
 
 vars == <<blocks, nextAbs, epochs, nextEpochId, nextSeed, syncingE, syncedE, toRelease, releasing, regGen, free, up, rec, stale,
-          volData, durData, syncSnap, state, snap, storeLock, plpc, rlpc, nsyncs, ackedAtSync, committedAcks, dirty, pdirty, phase, visible>>
+          volData, durData, syncSnap, state, snap, storeLock, plpc, rlpc, nsyncs, ackedAtSync, committedAcks, dirty, pdirty, ncrash, phase, visible>>
 
 NoRec == [epoch |-> -1, bfl |-> -1, seed |-> -1, u |-> ""]
 Idle == [pc |-> "idle", abs |-> -1, reg |-> -1, gen |-> -1, acked |-> FALSE]
@@ -64,7 +66,7 @@ Init ==
     /\ state = [oldest |-> 1, blks |-> <<>>] /\ snap = [oldest |-> 1, blks |-> <<>>]
     /\ storeLock = "" /\ plpc = "idle" /\ rlpc = "idle" /\ nsyncs = 0
     /\ ackedAtSync = {} /\ committedAcks = {} /\ dirty = FALSE /\ pdirty = FALSE
-    /\ phase = "run" /\ visible = [u \in Uploads |-> FALSE]
+    /\ ncrash = 0 /\ phase = "run" /\ visible = [u \in Uploads |-> FALSE]
 
 (***************************************************************************)
 (* The store                                                               *)
@@ -80,7 +82,7 @@ PushBack ==
        /\ volData' = {u \in volData : up[u].reg # r}
     /\ nextAbs' = nextAbs + 1
     /\ UNCHANGED <<epochs, nextEpochId, nextSeed, syncingE, syncedE, toRelease, releasing, up, rec, stale, syncSnap, state, snap,
-                   storeLock, plpc, rlpc, nsyncs, ackedAtSync, committedAcks, dirty, pdirty, phase, visible>>
+                   storeLock, plpc, rlpc, nsyncs, ackedAtSync, committedAcks, dirty, pdirty, ncrash, phase, visible>>
 
 PopFront ==
     /\ phase = "run" /\ Len(blocks) > 1
@@ -93,7 +95,7 @@ PopFront ==
        /\ syncingE' = IF b.ec >= syncingE THEN 0 ELSE syncingE - b.ec
        /\ syncedE' = IF b.ec >= syncedE THEN 0 ELSE syncedE - b.ec
     /\ UNCHANGED <<nextAbs, nextEpochId, nextSeed, releasing, regGen, up, rec, stale, volData, durData, syncSnap, state, snap,
-                   storeLock, plpc, rlpc, nsyncs, ackedAtSync, committedAcks, dirty, pdirty, phase, visible>>
+                   storeLock, plpc, rlpc, nsyncs, ackedAtSync, committedAcks, dirty, pdirty, ncrash, phase, visible>>
 
 \* allocate space for an upload in the newest block and write its data
 Write(u) ==
@@ -102,7 +104,14 @@ Write(u) ==
        /\ up' = [up EXCEPT ![u] = [pc |-> "written", abs |-> b.abs, reg |-> b.reg, gen |-> b.gen, acked |-> FALSE]]
        /\ volData' = volData \cup {u}
     /\ UNCHANGED <<blocks, nextAbs, epochs, nextEpochId, nextSeed, syncingE, syncedE, toRelease, releasing, regGen, free, rec, stale,
-                   durData, syncSnap, state, snap, storeLock, plpc, rlpc, nsyncs, ackedAtSync, committedAcks, dirty, pdirty, phase, visible>>
+                   durData, syncSnap, state, snap, storeLock, plpc, rlpc, nsyncs, ackedAtSync, committedAcks, dirty, pdirty, ncrash, phase, visible>>
+
+\* the block (absolute number) a record on the medium resolves to against the live epochs, or -1
+ResolveLive(r) ==
+    LET hit == {i \in 1..Len(epochs) : epochs[i].id = r.epoch /\ epochs[i].seed = r.seed} IN
+    IF hit = {} THEN -1
+    ELSE LET e == epochs[CHOOSE i \in hit : TRUE] IN
+         IF r.bfl < 0 \/ e.last - r.bfl < blocks[1].abs THEN -1 ELSE e.last - r.bfl
 
 \* BlockIndexToBlockReference: tag with the newest epoch
 NewRec(u, eps, abs) == [epoch |-> Last(eps).id, bfl |-> Last(eps).last - abs, seed |-> Last(eps).seed, u |-> u]
@@ -119,8 +128,10 @@ Finalize(u, displaced) ==
                                        last |-> Last(blocks).abs])
                   ELSE epochs
            r1 == [rec EXCEPT ![u] = NewRec(u, eps, up[u].abs)]
-           r2 == IF displaced # u /\ rec[displaced] # NoRec /\ up[displaced].abs >= blocks[1].abs
-                 THEN [r1 EXCEPT ![displaced] = NewRec(displaced, eps, up[displaced].abs)] ELSE r1 IN
+           \* only a record that is valid at this moment can be displaced; it is re-written for the
+           \* block it resolves to
+           r2 == IF displaced # u /\ rec[displaced] # NoRec /\ ResolveLive(rec[displaced]) >= 0
+                 THEN [r1 EXCEPT ![displaced] = NewRec(displaced, eps, ResolveLive(rec[displaced]))] ELSE r1 IN
        /\ epochs' = eps
        /\ nextEpochId' = IF newEpoch THEN nextEpochId + 1 ELSE nextEpochId
        /\ nextSeed' = IF newEpoch THEN nextSeed + 1 ELSE nextSeed
@@ -130,7 +141,7 @@ Finalize(u, displaced) ==
        /\ up' = [up EXCEPT ![u].pc = "done", ![u].acked = TRUE]
        /\ dirty' = TRUE /\ pdirty' = TRUE
     /\ UNCHANGED <<nextAbs, syncingE, syncedE, toRelease, releasing, regGen, free, volData, durData, syncSnap, state, snap, storeLock,
-                   plpc, rlpc, nsyncs, ackedAtSync, committedAcks, phase, visible>>
+                   plpc, rlpc, nsyncs, ackedAtSync, committedAcks, ncrash, phase, visible>>
 
 (***************************************************************************)
 (* PeriodicSyncer                                                          *)
@@ -142,7 +153,7 @@ SyncStart ==
     /\ plpc' = "syncing" /\ nsyncs' = nsyncs + 1
     /\ ackedAtSync' = Acked /\ pdirty' = FALSE
     /\ UNCHANGED <<blocks, nextAbs, epochs, nextEpochId, nextSeed, syncedE, toRelease, releasing, regGen, free, up, rec, stale, volData,
-                   durData, state, snap, storeLock, rlpc, committedAcks, dirty, phase, visible>>
+                   durData, state, snap, storeLock, rlpc, committedAcks, dirty, ncrash, phase, visible>>
 
 \* the device sync returns; Lock; NotifySyncCompleted; Unlock
 SyncEnd ==
@@ -152,7 +163,7 @@ SyncEnd ==
     /\ syncedE' = IF Mut = "expose_all_epochs" THEN Len(epochs) ELSE syncingE
     /\ plpc' = "synced"
     /\ UNCHANGED <<blocks, nextAbs, epochs, nextEpochId, nextSeed, syncingE, toRelease, releasing, regGen, free, up, rec, stale, syncSnap,
-                   state, snap, storeLock, rlpc, nsyncs, ackedAtSync, committedAcks, dirty, pdirty, phase, visible>>
+                   state, snap, storeLock, rlpc, nsyncs, ackedAtSync, committedAcks, dirty, pdirty, ncrash, phase, visible>>
 
 \* GetPersistentState(): the blocks whose epochs are (partly) synchronized, with those epochs' seeds
 StateOf(bs, eps, nsynced) ==
@@ -173,7 +184,7 @@ GetState(who) ==
     /\ snap' = [oldest |-> IF epochs = <<>> THEN nextEpochId ELSE epochs[1].id, blks |-> StateOf(blocks, epochs, syncedE)]
     /\ releasing' = Len(toRelease)
     /\ UNCHANGED <<blocks, nextAbs, epochs, nextEpochId, nextSeed, syncingE, syncedE, toRelease, regGen, free, up, rec, stale, volData,
-                   durData, syncSnap, state, nsyncs, ackedAtSync, committedAcks, dirty, pdirty, phase, visible>>
+                   durData, syncSnap, state, nsyncs, ackedAtSync, committedAcks, dirty, pdirty, ncrash, phase, visible>>
 
 \* the new state file replaced the old one durably; Lock; NotifyPersistentStateWritten; Unlock
 StateWritten(who) ==
@@ -186,7 +197,7 @@ StateWritten(who) ==
     /\ IF who = "pl" THEN plpc' = "idle" /\ rlpc' = rlpc /\ committedAcks' = ackedAtSync /\ dirty' = pdirty
        ELSE rlpc' = "idle" /\ plpc' = plpc /\ committedAcks' = committedAcks /\ dirty' = dirty
     /\ UNCHANGED <<blocks, nextAbs, epochs, nextEpochId, nextSeed, syncingE, syncedE, regGen, up, rec, stale, volData, durData, syncSnap,
-                   snap, nsyncs, ackedAtSync, pdirty, phase, visible>>
+                   snap, nsyncs, ackedAtSync, pdirty, ncrash, phase, visible>>
 
 (***************************************************************************)
 (* Crash and recovery                                                      *)
@@ -216,14 +227,44 @@ Crash(keepRecs, keepData, machine) ==
     /\ keepRecs \subseteq ({rec[u] : u \in Uploads} \cup stale) \ {NoRec}
     /\ keepData \subseteq volData
     /\ machine \/ (keepData = volData /\ keepRecs = {rec[u] : u \in Uploads} \ {NoRec})
-    /\ phase' = "post"
+    /\ phase' = "post" /\ ncrash' = ncrash + 1
     /\ durData' = durData \cup keepData
     /\ visible' = [u \in Uploads |-> \E r \in keepRecs : r.u = u /\ Resolve(state, r) # 0]
     /\ stale' = keepRecs
     /\ UNCHANGED <<blocks, nextAbs, epochs, nextEpochId, nextSeed, syncingE, syncedE, toRelease, releasing, regGen, free, up, rec,
                    volData, syncSnap, state, snap, storeLock, plpc, rlpc, nsyncs, ackedAtSync, committedAcks, dirty, pdirty>>
 
+\* NewPersistentBlockList + NewOldCurrentNewLocationBlobMap from the durable state file: the listed
+\* blocks are re-attached, their epochs known again; everything else is forgotten.  Index records
+\* that survived stay on the medium; data written after the last completed sync survives or not
+\* as the crash decided.
+Restart ==
+    /\ phase = "post" /\ ncrash < MaxCrashes
+    /\ LET eps == RestoredEpochs(state)
+           nb == Len(state.blks) IN
+       /\ blocks' = [i \in 1..nb |-> [abs |-> state.blks[i].abs, reg |-> state.blks[i].reg, gen |-> state.blks[i].gen,
+                                       ec |-> Len(state.blks[i].seeds)]]
+       /\ epochs' = [i \in 1..Len(eps) |-> [id |-> eps[i].id, seed |-> eps[i].seed, last |-> state.blks[eps[i].blk].abs]]
+       /\ nextEpochId' = state.oldest + Len(eps)
+       /\ syncingE' = Len(eps) /\ syncedE' = Len(eps)
+       /\ free' = (1..NumRegions) \ {state.blks[i].reg : i \in 1..nb}
+       \* block numbers continue after the last restored block: the numbers of forgotten blocks are
+       \* used again, exactly like their positions in the real list
+       /\ nextAbs' = IF nb = 0 THEN 0 ELSE state.blks[nb].abs + 1
+    /\ toRelease' = <<>> /\ releasing' = 0
+    /\ volData' = {} /\ syncSnap' = {}
+    \* what the index holds for an upload is a surviving record that validates, if there is one
+    /\ rec' = [u \in Uploads |-> LET ok == {r \in stale : r.u = u /\ Resolve(state, r) # 0} IN
+                                 IF ok = {} THEN NoRec ELSE CHOOSE r \in ok : TRUE]
+    \* an upload that did not survive the crash is no longer "acknowledged and present"
+    /\ up' = [u \in Uploads |-> IF up[u].pc = "done" THEN [up[u] EXCEPT !.acked = visible[u]] ELSE Idle]
+    /\ snap' = state /\ storeLock' = "" /\ plpc' = "idle" /\ rlpc' = "idle"
+    /\ ackedAtSync' = {} /\ committedAcks' = {} /\ dirty' = FALSE /\ pdirty' = FALSE
+    /\ phase' = "run"
+    /\ UNCHANGED <<nextSeed, regGen, stale, durData, state, nsyncs, ncrash, visible>>
+
 Next ==
+    \/ Restart
     \/ PushBack \/ PopFront
     \/ \E u \in Uploads : Write(u) \/ (\E d \in Uploads : Finalize(u, d))
     \/ SyncStart \/ SyncEnd \/ GetState("pl") \/ GetState("rl") \/ StateWritten("pl") \/ StateWritten("rl")
@@ -247,6 +288,17 @@ CrashSafe ==
                      /\ b.reg = up[u].reg /\ b.gen = up[u].gen /\ b.abs = up[u].abs
                      /\ regGen[b.reg] = b.gen
                      /\ u \in durData
+\* While running (in particular after a restart), every record on the medium that validates against
+\* the live epochs points at the block incarnation its upload was written into, and the bytes are
+\* there.  (Records of epochs that were forgotten by a crash must not validate again when their
+\* epoch numbers are reused: that is what the secret per-epoch seeds are for.)
+LiveSafe ==
+    (phase = "run" /\ blocks # <<>>) =>
+        \A r \in (stale \cup {rec[u] : u \in Uploads}) \ {NoRec} :
+            LET a == ResolveLive(r) IN
+            a >= 0 => LET b == blocks[a - blocks[1].abs + 1] IN
+                      /\ a = up[r.u].abs /\ b.reg = up[r.u].reg /\ b.gen = up[r.u].gen
+                      /\ r.u \in durData \cup volData
 \* a block listed in the durable state file is never free (its region is not handed out again)
 ListedNotFree ==
     phase = "run" => \A i \in 1..Len(state.blks) : state.blks[i].reg \notin free \/ regGen[state.blks[i].reg] # state.blks[i].gen
@@ -255,7 +307,7 @@ ListedNotFreeStrict ==
 \* C03(b): uploads acknowledged before the start of a commit that completed, with no upload or
 \* refresh since, are visible after a process crash -- unless their block was rotated out
 CommitDurable ==
-    (phase = "post" /\ ~dirty) =>
+    (phase = "post" /\ ~dirty /\ blocks # <<>>) =>
         \A u \in committedAcks : (up[u].abs >= blocks[1].abs /\ rec[u] \in stale) => visible[u]
 Counters == 0 <= syncedE /\ syncedE <= syncingE /\ syncingE <= Len(epochs)
 =============================================================================
